@@ -32,6 +32,7 @@ var c02Terms = []struct {
 	{"|| b", func(c *gen.Expr) *gen.Expr { return gen.Or(c, gen.Field("b")) }},
 	{"== b", func(c *gen.Expr) *gen.Expr { return gen.Cmp("==", c, gen.Field("b")) }},
 	{"(…)[0]", func(c *gen.Expr) *gen.Expr { return gen.Chain(gen.Paren(c), gen.StIndex(0)) }},
+	{"[…, …]", func(c *gen.Expr) *gen.Expr { return gen.MultiList(c, c) }}, // evaluated twice in one expression: the second reading must see the same data
 }
 
 func c02Chain(i int, maxSteps int) (*gen.Expr, int) {
@@ -75,7 +76,7 @@ func c02Count(maxSteps int) int {
 
 func c02(r *mon.Run) {
 	maxSteps := tierPick(r, 3, 4)
-	r.Rule = "exhaustive: every chain of 1..K steps (K=3 quick, 4 thorough) over 17 steps {.a .\"a\" .b [0] [-1] [*] [] [?a] [?@] .* [1:] [::-1] .[a,b] .{x:a} .type(@) .to_string(@) .not_null(a,'z')} x heads {a, @, bare} x terminators {end, | [0], (…).a, (…)[0], || b, == b} x a 35-document universe (empty / null-containing / heterogeneous / nested arrays and objects); " +
+	r.Rule = "exhaustive: every chain of 1..K steps (K=3 quick, 4 thorough) over 17 steps {.a .\"a\" .b [0] [-1] [*] [] [?a] [?@] .* [1:] [::-1] .[a,b] .{x:a} .type(@) .to_string(@) .not_null(a,'z')} x heads {a, @, bare} x terminators {end, | [0], (…).a, (…)[0], || b, == b, evaluated twice [c, c]} x a 35-document universe (empty / null-containing / heterogeneous / nested arrays and objects); " +
 		"plus seeded random nested projections with filters and slices on random typed documents. Oracle: ref.RefSet with member-order nondeterminism as a result set. Non-trivial = distinct (expression, document) with a projection whose expected result is a non-empty array, or null because the left side has the wrong type (counted separately)."
 	r.Exhaustive = true
 	r.Floor = 5000
